@@ -439,6 +439,7 @@ func peek(st *state.StateDB, a common.Address) *state.Validator {
 
 type clause struct {
 	stat, index, sums, units, links string
+	acct                            string // account side of the links: lists a validator without a delegation from it / balance != sum
 	neg                             bool // some record holds a negative token or stake
 }
 
@@ -569,15 +570,15 @@ func oracle(st *state.StateDB) clause {
 				}
 			}
 			if df == nil {
-				if c.links == "" {
-					c.links = fmt.Sprintf("account %d lists validator %d which has no delegation from it", rk(d), rk(a))
+				if c.acct == "" {
+					c.acct = fmt.Sprintf("account %d lists validator %d which has no delegation from it", rk(d), rk(a))
 				}
 				continue
 			}
 			sum.Add(sum, df.Token)
 		}
-		if sum.Cmp(ac.Balance) != 0 && c.links == "" {
-			c.links = fmt.Sprintf("account %d: delegation balance %v but delegations sum to %v", rk(d), ac.Balance, sum)
+		if sum.Cmp(ac.Balance) != 0 && c.acct == "" {
+			c.acct = fmt.Sprintf("account %d: delegation balance %v but delegations sum to %v", rk(d), ac.Balance, sum)
 		}
 	}
 	return c
@@ -1455,7 +1456,7 @@ func gen(seed uint64, n int, outDir, corpusDir string, flavour int) {
 			res.OracleHits = append(res.OracleHits, History{What: "staking handlers: " + f, Handlers: &HHist{Ops: hh.Ops[:cut]}})
 			res.Count("oracle:VIOLATION")
 		} else {
-			for _, cl := range []string{F11, F10} {
+			for _, cl := range []string{F10} {
 				if kn[cl] == "" {
 					continue
 				}
